@@ -256,6 +256,22 @@ def reuse(host, n):
     return _finish(m, d)
 
 
+def crossorder(host, n):
+    """n + 1 independent siblings; state-order edges run from every later-created node to the one created just
+    before it (the target precedes its source in the child order), plus one edge from the last to the first."""
+    from hugr import ops, tys
+
+    m, d = _host(host, [tys.Bool])
+    (a,) = d.inputs()
+    nodes = [d.add_op(ops.Noop(tys.Bool), a) for _ in range(n + 1)]
+    for i in range(1, n + 1):
+        d.add_state_order(nodes[i], nodes[i - 1])
+    if n >= 2:
+        d.add_state_order(nodes[n], nodes[0])
+    d.set_outputs(*[nd[0] for nd in nodes])
+    return _finish(m, d)
+
+
 def reusedeep(host, n):
     """n spare nodes are created *before* a nested container X and deleted afterwards (highest first), then
     nested DFGs are built inside X: they take the freed low indices, so parents, children and grandchildren
@@ -285,7 +301,7 @@ def reusedeep(host, n):
     return _finish(m, d)
 
 
-FAMILIES = {"reusedeep": reusedeep, "wide": wide, "fanout": fanout, "chain": chain, "deep": deep, "cases": cases, "blocks": blocks, "loops": loops,
+FAMILIES = {"crossorder": crossorder, "reusedeep": reusedeep, "wide": wide, "fanout": fanout, "chain": chain, "deep": deep, "cases": cases, "blocks": blocks, "loops": loops,
             "funcs": funcs, "poly": poly, "rowpoly": rowpoly, "reuse": reuse}
 MODULE_ONLY = {"funcs", "poly", "rowpoly"}
 # `reuse` leaves re-added Noops whose outputs are unused (fine: Bool is copyable) -> still a valid HUGR
